@@ -257,8 +257,11 @@ def gen_exhaustive(rng, bmax, smax, full):
             w = ab * a_size + 2 * ab
             for rs in range(1, smax + 1):
                 for rb in range(1, bmax + 1):
-                    for off in range(-w, w + 1):
-                        for ch in chunks:
+                    # window of offsets, plus offsets far below the result: the carry crosses a gap of about
+                    # 63..129 bits (rounding shift by < word, = word, > word for i64 and for i128)
+                    far = [-(rb * rs) - g for g in (63, 64, 65, 127, 128, 129)]
+                    for off in list(range(-w, w + 1)) + far:
+                        for ch in (chunks if off >= -w else chunks[::3]):
                             n = len(ch)
                             cases.append(Case("normalize", {"rb": rb, "rs": rs, "off": off, "ab": ab}, ch, None, "exhaustive",
                                               bes_for(n), "exh"))
@@ -518,6 +521,105 @@ def run_codec(ctx, binp, drv, quick, broken, fails):
 # ----------------------------------------------------------------------------- main
 
 
+def cross_branches(bits, rb, rs, off, ab, a_size):
+    """Branch labels of `vec_znx_normalize_cross_base2k` (model: `normalizeCrossCoef`) taken on these parameters.
+    The loop counters are data independent, so this replica of the counters (not of the arithmetic) is enough
+    to say which branches a case exercises.  Coverage instrumentation only: nothing is checked with it, except
+    that the replica never runs out of the model's inner-loop fuel (the Lean theorem `normalize_cross_terminates`)."""
+    def clamp(x, hi):
+        return 0 if x < 0 else min(x, hi)
+    out = set()
+    a_tot, res_tot = a_size * ab, rs * rb
+    lo = off // ab
+    res_end_bit = clamp(-lo * ab, res_tot)
+    res_start_bit = clamp(a_tot - lo * ab, res_tot)
+    a_end_bit = clamp(lo * ab, a_tot)
+    a_start_bit = clamp(res_tot + lo * ab, a_tot)
+    res_end, res_start = res_end_bit // rb, (res_start_bit + rb - 1) // rb
+    a_end, a_start = a_end_bit // ab, (a_start_bit + ab - 1) // ab
+    # the offset classes of the proof (Lemmas/NormCross5..7)
+    if res_start == 0:
+        out.add("class:all-shifted-out")
+        return out
+    if lo >= 0:
+        out.add("class:P(limbs_offset>=0)")
+    elif -lo * ab >= res_tot:
+        out.add("class:N1(below-the-result)")
+    else:
+        out.add("class:N2(overlap)")
+    out.add("lsh!=0" if off % ab else "lsh=0")
+    out.add("dropped-limbs" if a_start < a_size else "no-dropped-limbs")
+    gap = max(0, -lo * ab - res_tot)
+    out.add("gap:none" if gap == 0 else ("gap:rounding-shift" if gap < bits else "gap:beyond-word(carry:=0)"))
+    mid = max(0, a_start - a_end)
+    if mid == 0:
+        out.add("outer:empty")
+    take0, pad0 = (a_tot - a_start_bit) % ab, (res_tot - res_start_bit) % rb
+    acc, limb, atl, done = rb, res_start - 1, ab, False
+    for j in range(mid):
+        if done:
+            out.add("outer:skipped-after-break")
+            continue
+        a_limb = a_start - j - 1
+        atl = ab
+        if j == 0:
+            if take0:
+                out.add("first:partial-a-limb(take)")
+                atl = ab - take0
+            elif pad0:
+                out.add("first:partial-res-limb(pad)")
+                acc -= pad0
+            else:
+                out.add("first:aligned")
+        fuel = ab + 2
+        while True:
+            assert fuel > 0, "replica ran out of the model's fuel"
+            fuel -= 1
+            t = min(ab, atl, acc)
+            if t:
+                out.add("inner:extract")
+                atl -= t
+                acc -= t
+            else:
+                out.add("inner:extract-nothing")
+            if acc == 0 or a_limb == 0:
+                if a_limb == 0 and atl == 0:
+                    out.add("inner:flush+extract" if acc else "inner:flush")
+                    done = True
+                    break
+                if limb == 0:
+                    out.add("inner:result-full(break-outer)")
+                    done = True
+                    break
+                acc += rb
+                limb -= 1
+                if atl == 0:
+                    out.add("inner:next-res-limb,a-limb-exhausted")
+                    break
+                out.add("inner:next-res-limb,continue")
+            elif atl == 0:
+                out.add("inner:a-limb-exhausted")
+                break
+            else:
+                out.add("inner:continue")
+    if res_end:
+        out.add("top:carry-from-a" if a_start == a_end else "top:carry-from-res")
+    else:
+        out.add("top:none")
+    return out
+
+
+CROSS_UNREACHABLE = ["inner:extract-nothing", "inner:continue"]
+CROSS_LABELS = ["class:all-shifted-out", "class:P(limbs_offset>=0)", "class:N1(below-the-result)", "class:N2(overlap)",
+                "lsh=0", "lsh!=0", "dropped-limbs", "no-dropped-limbs",
+                "gap:none@i64", "gap:rounding-shift@i64", "gap:beyond-word(carry:=0)@i64",
+                "gap:none@i128", "gap:rounding-shift@i128", "gap:beyond-word(carry:=0)@i128",
+                "outer:empty", "outer:skipped-after-break", "first:partial-a-limb(take)", "first:partial-res-limb(pad)", "first:aligned",
+                "inner:extract", "inner:extract-nothing", "inner:flush", "inner:flush+extract", "inner:result-full(break-outer)",
+                "inner:next-res-limb,a-limb-exhausted", "inner:next-res-limb,continue", "inner:a-limb-exhausted", "inner:continue",
+                "top:carry-from-a", "top:carry-from-res", "top:none"]
+
+
 def shape_key(c, be):
     p = c.p
     if "ab" in p:
@@ -565,7 +667,7 @@ def run(ctx):
         "vlib/c08.py oracle: exact torus relation in Python integers on the implementation's outputs",
     ]
     ctx.assumptions += ["i64 limbs within |x| <= 2^62 (i128: 2^126) and 1 <= base2k <= 62: the head-room under which no kernel wraps",
-                        "theorems for the cross-radix path are partial (executable model fully corresponded)"]
+                        "cross-radix theorems: |limb| <= 2^62 - 8 (i128: 2^126 - 8)"]
     ok, failures = ctx.proof_gate(["Poulpy.Props.C08"])
     if not ok:
         broken += failures
@@ -607,12 +709,20 @@ def run(ctx):
             cache = {}
             per_be = {}
             ops_hist = {}
+            branch_hist = {"exhaustive": {}, "random+corpus": {}}
             for li, (ci, be) in enumerate(owner):
                 c = cases[ci]
                 iv = impl[li].split(" ", 1)[1] if " " in impl[li] else "?"
                 mv = model[li].split(" ", 1)[1] if " " in model[li] else "?"
                 per_be[be] = per_be.get(be, 0) + 1
                 ops_hist[c.op] = ops_hist.get(c.op, 0) + 1
+                if "ab" in c.p and c.p["ab"] != c.p["rb"]:
+                    bits = 128 if (c.big and be.startswith("ntt120")) else 64
+                    rs_ = c.p.get("rs", len(c.res[0]) if c.res else 0)
+                    hk = "exhaustive" if c.tag == "exh" else "random+corpus"
+                    for lab in cross_branches(bits, c.p["rb"], rs_, c.p["off"], c.p["ab"], len(c.a[0])):
+                        lab = f"{lab}@i{bits}" if lab.startswith("gap:") else lab
+                        branch_hist[hk][lab] = branch_hist[hk].get(lab, 0) + 1
                 nontrivial = any(x != 0 for cf in c.a for x in cf)
                 ctx.count_case(shape_key(c, be), nontrivial)
                 if iv != mv:
@@ -654,6 +764,22 @@ def run(ctx):
             ctx.cov["backend_mismatches"] = nd
             ctx.cov["per_backend"] = per_be
             ctx.cov["per_op"] = ops_hist
+            ctx.cov["cross_radix_branch_histogram"] = {
+                "unit": "request lines (cross-radix operations only) on which the model takes the branch; the loop counters "
+                        "are data independent, the labels come from vlib/c08.py:cross_branches",
+                "exhaustive": dict(sorted(branch_hist["exhaustive"].items())),
+                "random+corpus": dict(sorted(branch_hist["random+corpus"].items())),
+                "never_taken": sorted(set(CROSS_LABELS) - set(branch_hist["exhaustive"]) - set(branch_hist["random+corpus"])),
+                "unreachable_by_proof": {
+                    "inner:extract-nothing": "top of the inner loop has resAccLeft >= 1 and aTakeLeft >= 1 (Lemmas/NormCross: CInv.cnt, NormCrossTerm)",
+                    "inner:continue": "after an extraction one of the two counters is 0 (CInv.cnt, pend = false)"},
+                "not_reached_in_replica_search": {
+                    "outer:skipped-after-break": "no parameters with ab, rb <= 8, sizes <= 5, |offset| < 80 reach it (the outer range ends "
+                                                 "with the limb that fills the result); the proof does not exclude it (COut allows k' <= k)"},
+            }
+            missing_exh = sorted(set(CROSS_LABELS) - set(CROSS_UNREACHABLE) - set(branch_hist["exhaustive"]) - {"outer:skipped-after-break"})
+            if missing_exh:
+                broken.append("coverage: exhaustive small-scope tie does not reach model branches " + ", ".join(missing_exh))
             ctx.cov["exhaustive"] = True
             ctx.cov["exhaustive_scope"] = ("b<=2, sizes<=2 complete; b<=3 sizes<=3 stratified 1/7" if quick
                                            else "b<=3, sizes<=3 complete; b<=4, sizes<=2 complete") + \
